@@ -13,7 +13,7 @@ COQ_RUN = "run_case"
 TABLE_CONSTRUCTS = []
 RULE = ("histories = up to 10 agents of classes A(mesa.Agent), B(A), C(B), D(A) with small int attributes a0..a2 (ties; "
         "a1/a2 missing on some agents), an initial AgentSet (all / subset / permuted / with duplicates / empty) in slot 0 of a "
-        "pool of 6 slots, then <= 25 operations select/sort/shuffle (in-place or copying into another slot), groupby, "
+        "pool of 6 slots, then <= 25 operations select/sort/shuffle (in-place or copying into another slot), groupby (+ count/agg/do), "
         "groupby().groups[k], get, set, agg, map, add, discard, remove, in, len, [i], [i:j], iter, pop, clear, index, count, "
         "reversed on any filled slot; "
         "at_most from {0,1,2,|s|-1,|s|,|s|+1,inf,0.0,k/2^j,1.0}; non-trivial = at least 3 operations of which one returns "
@@ -130,8 +130,15 @@ def _rand_op(rng, filled, n):
         return ["shuffle", s, inplace, d]
     if r < 0.53:
         return ["groupby", s, _rand_key(rng), rng.choice(["agentset", "list"])]
-    if r < 0.58:
+    if r < 0.57:
         return ["groupget", s, _rand_key(rng), rng.randint(-1, 3), d]
+    if r < 0.58:
+        w = rng.random()
+        if w < 0.3:
+            return ["groupcount", s, _rand_key(rng)]
+        if w < 0.75:
+            return ["groupagg", s, _rand_key(rng), rng.choice([0, 0, 1, 2]), rng.choice(["sum", "min", "max", "len"])]
+        return ["groupdoset", s, _rand_key(rng), rng.choice([0, 1, 2]), rng.randint(-1, 3)]
     if r < 0.65:
         names = [rng.choice([0, 0, 1, 2]) for _ in range(rng.randint(1, 3))]
         if rng.random() < 0.05:
@@ -238,6 +245,8 @@ def _corner_cases():
         ["get", 0, [1], True, 0, 0], ["get", 0, [1], True, 1, -7], ["get", 0, [0, 2], False, 1, 9], ["get", 0, [0, 2], False, 0, 9],
         ["get", 0, [0], True, 2, 0], ["select", 0, ["le", 1, 0], ["inf"], None, True, 0], ["select", 0, ["le", 1, 0], ["int", 1], None, True, 0],
         ["sort", 0, ["attr", 2], False, True, 0], ["groupby", 0, ["attr", 1], "list"], ["agg", 0, 1, "max"], ["map", 0, ["key", ["neg", 2]]],
+        ["groupcount", 0, ["attr", 0]], ["groupcount", 0, ["attr", 1]], ["groupagg", 0, ["attr", 0], 0, "min"], ["groupagg", 0, ["cls"], 1, "sum"],
+        ["groupagg", 0, ["attr", 0], 1, "max"], ["groupdoset", 0, ["attr", 2], 1, 4], ["groupdoset", 0, ["idmod", 2], 1, 4], ["groupagg", 0, ["attr", 0], 1, "max"],
         ["set", 0, 2, 3], ["get", 0, [2], True, 0, 0], ["sort", 0, ["attr", 2], False, True, 0]]}
     # ordered-set laws
     yield {"seed": 6, "agents": ags, "init": [3, 1, 3, 2, 1], "ops": [
@@ -602,6 +611,40 @@ def run_impl(case):
                         fail(i, "C03/groupby/empty-group", f"{op} on {ids(before)}: groups[{kvq}] exists although no member has that key")
                     pool[d], shadow[d], touched = res, exp, d
                     ret = []
+            elif kind in ("groupcount", "groupagg", "groupdoset"):
+                key = op[2]
+                kf = _mk_key(key)
+                kc = _mk_key(key, as_callable=True)
+                keys = _attempt(lambda: [kc(a) for a in before])
+                gb = st.groupby(kf)
+                if keys[0] != "ok":
+                    fail(i, "C03/groupby/no-exception", f"{op} on {ids(before)}: the key raises {keys[1].__name__} but groupby returned")
+                    expg = [(k, list(v)) for k, v in gb]
+                else:
+                    expg = [(k, [a for a, ka in zip(before, keys[1]) if ka == k]) for k in dict.fromkeys(keys[1])]
+                if kind == "groupcount":
+                    res = gb.count()
+                    if list(res.items()) != [(k, len(v)) for k, v in expg]:
+                        fail(i, "C03/groupby/count-wrong", f"{op} on {ids(before)}: got {res}")
+                    ret = [len(res)] + [x for k, c in res.items() for x in (k, c)]
+                elif kind == "groupagg":
+                    n, fn = op[3], op[4]
+                    func = {"sum": sum, "min": min, "max": max, "len": len}[fn]
+                    e = _attempt(lambda: [(k, func([vars(a)[f"a{n}"] for a in v])) for k, v in expg])
+                    res = gb.agg(f"a{n}", func)
+                    if e[0] != "ok":
+                        fail(i, "C03/groupby/agg-no-exception", f"{op} on {ids(before)}: list semantics raises {e[1].__name__}, agg returned {res}")
+                    elif list(res.items()) != e[1]:
+                        fail(i, "C03/groupby/agg-wrong", f"{op} on {ids(before)}: got {res}, list semantics gives {e[1]}")
+                    ret = [x for k, v in res.items() for x in (k, v)]
+                else:
+                    n, v = op[3], op[4]
+                    res = gb.do("set", f"a{n}", v)
+                    for a in before:
+                        sattrs[a.unique_id][n] = v
+                    if res is not gb:
+                        fail(i, "C03/groupby/do-returns-other-object", f"{op}: do did not return the GroupBy itself")
+                    ret = [1 if res is gb else 0]
             elif kind == "get":
                 _, _, names, single, mode, dflt = op
                 if single and names:
@@ -750,7 +793,9 @@ def run_impl(case):
         else:
             k = _EXC_KIND.get(type(exc))
             expected = False
-            if k == E_ATTR and kind in ("select", "sort", "groupby", "groupget", "get", "agg", "map"):
+            if k == E_ATTR and kind == "groupagg":
+                expected = _would_raise_attr(op, before, cl) or any(f"a{op[3]}" not in vars(a) for a in before)
+            elif k == E_ATTR and kind in ("select", "sort", "groupby", "groupget", "get", "agg", "map", "groupcount", "groupdoset"):
                 # legitimate exactly when evaluating the user function over the members raises
                 expected = _would_raise_attr(op, before, cl)
             elif k == E_KEY and kind == "remove":
@@ -786,7 +831,7 @@ def _would_raise_attr(op, before, cl):
             for a in before:
                 if f is not None:
                     f(a)
-        elif kind in ("sort", "groupby", "groupget"):
+        elif kind in ("sort", "groupby", "groupget", "groupcount", "groupagg", "groupdoset"):
             kc = _mk_key(op[2], as_callable=True)
             for a in before:
                 kc(a)
@@ -875,6 +920,13 @@ def _c_op(op):
         return f"GroupBy {s} {_c_key(op[2])}"
     if k == "groupget":
         return f"GroupGet {s} {_c_key(op[2])} {L.z(op[3])} {L.z(op[4])}"
+    if k == "groupcount":
+        return f"GroupCount {s} {_c_key(op[2])}"
+    if k == "groupagg":
+        fn = {"sum": "FSum", "min": "FMin", "max": "FMax", "len": "FLen"}[op[4]]
+        return f"GroupAgg {s} {_c_key(op[2])} {L.z(op[3])} {fn}"
+    if k == "groupdoset":
+        return f"GroupDoSet {s} {_c_key(op[2])} {L.z(op[3])} {L.z(op[4])}"
     if k == "get":
         return f"Get {s} {L.zlist(op[2])} {L.b(op[3])} {L.z(op[4])} {L.z(op[5])}"
     if k == "set":
